@@ -25,6 +25,8 @@ from vcheck import findings as _findings
 
 EXIT_HELD, EXIT_VIOLATION, EXIT_INCONCLUSIVE = 0, 1, 2
 REPO = os.environ.get("VERIF_REPO", "/repo")
+# evidence/replay normally live in /verif; mutant runs against scratch worktrees redirect them
+OUT = os.environ.get("VERIF_OUT", HERE)
 
 
 # --------------------------------------------------------------------------- case
@@ -316,7 +318,7 @@ def fold(mod, prop, tier, seed, records, counters, problems, wall) -> int:
                 for r, f in hits:
                     fh.write(json.dumps({"id": r["id"], "params": r["params"], "failure": f, "known": k}) + "\n")
     # ---- replay files
-    rdir = os.path.join(HERE, "replay", prop)
+    rdir = os.path.join(OUT, "replay", prop)
     vio_lines = []
     seen = set()
     for r, f in violations:
@@ -381,8 +383,8 @@ def fold(mod, prop, tier, seed, records, counters, problems, wall) -> int:
         "wall_s": round(wall, 2),
         "violations": len(violations),
     }
-    os.makedirs(os.path.join(HERE, "evidence"), exist_ok=True)
-    with open(os.path.join(HERE, "evidence", f"{prop}.json"), "w") as f:
+    os.makedirs(os.path.join(OUT, "evidence"), exist_ok=True)
+    with open(os.path.join(OUT, "evidence", f"{prop}.json"), "w") as f:
         json.dump(ev, f, indent=1, sort_keys=False)
         f.write("\n")
     summary = (f"{prop} tier={tier} seed={seed} cases={len(records)} decided={decided} "
@@ -411,7 +413,7 @@ def _write_replay(rdir, prop, tier, seed, r, f, known=None) -> str:
     with open(path, "w") as fh:
         json.dump({"property": prop, "tier": tier, "seed": seed, "case": r["params"],
                    "failure": f, "known_finding": known, "obs": r["obs"]}, fh, indent=1)
-    return os.path.relpath(path, HERE)
+    return os.path.relpath(path, OUT)
 
 
 def replay(path: str) -> int:
